@@ -55,6 +55,8 @@ type vScenario struct {
 	Addr       map[string]string `json:"addr"`       // proxy name -> remote address
 	PType      map[string]string `json:"ptype"`      // proxy name -> proxy type
 	Fresh      bool              `json:"fresh"`      // start with a new BrokerContext
+	Bridges    []string          `json:"bridges"`    // configured bridge list (default: default + b2)
+	Barrier    bool              `json:"barrier"`    // herd: lock-step release of all goroutines waiting at hook points
 	RollDuring bool              `json:"rollduring"` // herd: a metrics period ends while a wave is being served (C20)
 	Rollover   bool              `json:"rollover"`   // a metrics period ends before this scenario
 	NoRelayExt map[string]bool   `json:"norelayext"` // proxies whose poll omits AcceptedRelayPattern
@@ -84,6 +86,7 @@ type vRig struct {
 	reqs     map[string]*vReq
 	waiting  map[string]chan struct{}
 	gateMode bool
+	lockstep bool
 	diverged string
 	sc       int
 }
@@ -103,17 +106,27 @@ func vGid() int64 {
 
 func vNewRig() *vRig {
 	r := &vRig{}
-	r.newContext()
+	r.newContext(nil)
 	return r
 }
 
-func (r *vRig) newContext() {
+func (r *vRig) newContext(bridges []string) {
 	r.mlog = new(bytes.Buffer)
 	r.ctx = NewBrokerContext(log.New(r.mlog, "", 0))
-	bridges := `{"displayName":"default", "webSocketAddress":"wss://default.example/", "fingerprint":"` + vDefaultFP + `"}
-{"displayName":"b2", "webSocketAddress":"wss://b2.example/", "fingerprint":"` + vB2FP + `"}
-`
-	if err := r.ctx.InstallBridgeListProfile(strings.NewReader(bridges), "", ""); err != nil {
+	if bridges == nil {
+		bridges = []string{"default", "b2"}
+	}
+	list := ""
+	for _, b := range bridges {
+		switch b {
+		case "default":
+			list += `{"displayName":"default", "webSocketAddress":"wss://default.example/", "fingerprint":"` + vDefaultFP + `"}` + "\n"
+		case "b2":
+			list += `{"displayName":"b2", "webSocketAddress":"wss://b2.example/", "fingerprint":"` + vB2FP + `"}` + "\n"
+		}
+	}
+	// the operator's list replaces the built-in default list of NewBrokerContext
+	if err := r.ctx.InstallBridgeListProfile(strings.NewReader(list), "", ""); err != nil {
 		panic(err)
 	}
 	r.ipc = &IPC{r.ctx}
@@ -209,9 +222,10 @@ func (r *vRig) hook(point string, args ...interface{}) {
 		ev["p"], ev["nat"], ev["load"], ev["ptype"] = args[0], args[1], args[2], args[3]
 		ev["locked"] = r.probe()
 		r.mu.Lock()
-		ev["addr"], ev["relayext"] = "?", true
+		ev["addr"], ev["relayext"], ev["loadwire"], ev["natwire"] = "?", true, args[2], args[1]
 		if q := r.reqs[args[0].(string)]; q != nil {
-			ev["addr"], ev["relayext"] = q.addr, !q.norelay
+			// what the proxy actually reported on the wire
+			ev["addr"], ev["relayext"], ev["loadwire"], ev["natwire"] = q.addr, !q.norelay, q.load, q.nat
 		}
 		r.mu.Unlock()
 	case "p.got":
@@ -547,6 +561,29 @@ func (r *vRig) tick() {
 	r.emit(vEvent{"ev": "tick"})
 	time.Sleep(vTick)
 	synctest.Wait()
+	if r.lockstep {
+		r.barrier()
+	}
+}
+
+// barrier: lock-step herd.  Every goroutine that reached a hook point waits
+// there; at quiescence all of them are released at the same moment, so that
+// the code following the hook points runs with maximal contention (this is
+// what exposes check-then-act windows that open right after a hook point).
+func (r *vRig) barrier() {
+	for i := 0; i < 50; i++ {
+		synctest.Wait()
+		r.mu.Lock()
+		w := r.waiting
+		r.waiting = map[string]chan struct{}{}
+		r.mu.Unlock()
+		if len(w) == 0 {
+			return
+		}
+		for _, ch := range w {
+			close(ch)
+		}
+	}
 }
 
 func (r *vRig) diverge(st []interface{}, why string) {
@@ -579,6 +616,8 @@ func (r *vRig) runSteps(sc *vScenario) {
 		case "ProxyRegister", "ClientMatch", "AnswerLookup":
 			r.start(r.reqFromStep(st, sc), sc)
 			synctest.Wait()
+		case "Barrier":
+			r.barrier()
 		case "Wave":
 			for n, x := range st[1].([]interface{}) {
 				r.start(r.reqFromStep(x.([]interface{}), sc), sc)
@@ -591,6 +630,9 @@ func (r *vRig) runSteps(sc *vScenario) {
 				}
 			}
 			synctest.Wait()
+			if r.lockstep {
+				r.barrier()
+			}
 		case "Tick":
 			r.tick()
 		case "OfferRendezvous":
@@ -661,7 +703,7 @@ func (r *vRig) observeEnd(sc *vScenario) vEvent {
 func (r *vRig) freshClients() []string {
 	var kinds []string
 	for i, nat := range []string{"unknown", "unrestricted"} {
-		q := &vReq{kind: "client", name: fmt.Sprintf("fresh%d", i), nat: nat, fp: "default", via: "post"}
+		q := &vReq{kind: "client", name: fmt.Sprintf("fresh%d", i), nat: nat, fp: "b2", via: "post"}
 		done := make(chan vEvent, 1)
 		go func() {
 			gid := vGid()
@@ -732,7 +774,8 @@ func (r *vRig) runScenario(t *testing.T, sc *vScenario) (events []vEvent, hung b
 	r.gids = map[int64]string{}
 	r.reqs = map[string]*vReq{}
 	r.waiting = map[string]chan struct{}{}
-	r.gateMode = sc.Mode == "replay"
+	r.gateMode = sc.Mode == "replay" || sc.Barrier
+	r.lockstep = sc.Barrier
 	r.diverged = ""
 	r.sc = sc.ID
 	r.mu.Unlock()
@@ -823,7 +866,7 @@ func TestVerifBrokerScenarios(t *testing.T) {
 			t.Fatalf("bad scenario: %v", err)
 		}
 		if first || sc.Fresh {
-			rig.newContext()
+			rig.newContext(sc.Bridges)
 			sc.Fresh = true
 			first = false
 		}
